@@ -169,7 +169,7 @@ class QFDriver:
                 key = self.pool[op[1] % len(self.pool)]
                 h = self.hf_eff(key, 0)
             new = h not in self.model
-            if new and o.quotient >= self.maxq and len(self.model) >= 0.8 * o.size:
+            if new and o.quotient >= self.maxq and len(self.model) >= 0.8 * o.size and not self.case.get("nocap"):
                 return self.step(["remove", op[1], op[2] if len(op) > 2 else 0])  # keep tables <= 2^8 slots
             full = (not o.auto_expand) and len(self.model) >= o.size
             if kind == "addkey":
